@@ -422,7 +422,7 @@ class DecimalFieldFormat(AbstractFieldFormat):
             # TODO: limit exception handler to decimal exception or whatever decimal.Decimal raises.
             message = "value is %r but must be a decimal number: %s" % (value, error)
             raise errors.FieldValueError(message)
-        if result.is_nan():
+        if not result.is_finite():
             raise errors.FieldValueError("value is %r but must be a decimal number" % value)
 
         try:
